@@ -9,7 +9,7 @@ import (
 func init() { register("C10", propC10) }
 
 func propC10(c *Ctx) {
-	c.Explanation = "Decides structural necessary conditions of port exclusivity for all schedules and inputs: (Q1) every access to PortManager.allocatedPorts happens with PortManager.mu held (must-lockset, interprocedural, closure passed to PickEphemeralPort included) and the availability check and the insertion lie in one critical section; (Q2) bindAddresses.isAvailable computes exactly the conflict relation of the property (decision table over its branch atoms, all assignments); (Q5) isPortAvailableLocked answers 'available' only after every network of the request was examined, and reserveSpecificPort inserts for every network only after that answer; (Q3) PickEphemeralPort tries offsets i in [0,count) of the range, returns ErrNoPortAvailable only after the loop is exhausted, propagates a tester error unchanged, and its port arithmetic neither wraps nor leaves [16000,65535] (interval analysis); (Q4) reservations made by TCP Bind and UDP registerWithStack/bindLocked are released on every later error exit with the same arguments, Close releases what the endpoint holds, and ReleasePort deletes only the (network,transport,port)/address entry it was given. NOT decided: that the map content over a history of calls is what the sequence implies (histories quantifier)."
+	c.Explanation = "Decides structural necessary conditions of port exclusivity for all schedules and inputs: (Q1) every access to PortManager.allocatedPorts happens with PortManager.mu held (must-lockset, interprocedural, closure passed to PickEphemeralPort included) and the availability check and the insertion lie in one critical section; (Q2) bindAddresses.isAvailable computes exactly the conflict relation of the property (decision table over its branch atoms, all assignments); (Q5) isPortAvailableLocked answers 'available' only after every network of the request was examined, and reserveSpecificPort inserts for every network only after that answer; (Q3) PickEphemeralPort tries offsets i in [0,count) of the range, returns ErrNoPortAvailable only after the loop is exhausted, propagates a tester error unchanged, and its port arithmetic neither wraps nor leaves [16000,65535] (interval analysis); (Q4) reservations made by TCP Bind and UDP registerWithStack/bindLocked are released on every later error exit with the same arguments, Close releases what the endpoint holds, and ReleasePort deletes only the (network,transport,port)/address entry it was given. Q5 also tables reserveSpecificPort: a fresh address set per descriptor, the address inserted for every network. NOT decided: that the map content over a history of calls is what the sequence implies (histories quantifier)."
 	c.Assumptions = []string{"math/rand.Int31n(n) returns a value in [0,n)", "closures passed to PickEphemeralPort are invoked synchronously by it (checked: it calls its parameter and never stores it)"}
 	pm := "(*ports.PortManager)."
 
@@ -152,6 +152,16 @@ func propC10(c *Ctx) {
 
 	// Q4: pairing
 	c.Returns(q1, pm+"IsPortAvailable", RetSpec{Args: []string{pm + "isPortAvailableLocked($0, $1, $2, $3, $4)"}, Why: "the exported test is the locked test with the caller's arguments"})
+
+	if fn := c.Fn(q5, pm+"reserveSpecificPort"); fn != nil {
+		desc := "ports.portDescriptor{network: $1[(1 + phi{-1 | loop})], transport: $2, port: $4}"
+		av := pm + "isPortAvailableLocked($0, $1, $2, $3, $4)"
+		in := "((1 + phi{-1 | loop}) < builtin:len($1))"
+		c.CheckSites(q5, fn, []SiteSpec{
+			{Kind: "mapupdate", Args: []string{"$0.allocatedPorts", desc, "make(ports.bindAddresses)"}, Guards: []string{"!$0.allocatedPorts[" + desc + "]#1", in, av}, Exact: true, N: 1, Why: "every (network, transport, port) descriptor that has no address set yet gets its OWN fresh set - one per network, never shared between descriptors"},
+			{Kind: "mapupdate", Args: []string{"phi{$0.allocatedPorts[" + desc + "]#0 | make(ports.bindAddresses)}", "$3", "zero"}, Guards: []string{in, av}, Exact: true, N: 1, Why: "the address is inserted into the set of each requested network"},
+		})
+	}
 
 	q4 := c.Rule("Q4", "K2 pairing / K5", "reservations released on later error exits; ReleasePort deletes only its entry", 8)
 	release := Is("(*ports.PortManager).ReleasePort")
